@@ -494,9 +494,9 @@ def part_report(ctx, labelled, results):
     """observe_at: the two SUMMARY sections of the report are, character for character, the string model applied to the
     values the run holds (also for the partial report main() prints after an exception), and HipRaResult's parse of the
     report is the model parser's."""
-    terms, meta = [], []
+    terms, meta, budget = [], [], ctx.n(170, 100000)
     for (label, text), r in zip(labelled, results):
-        if r.get('read_error'):
+        if r.get('read_error') or (len(meta) >= 3 * budget and not r['calc_error']):
             continue
         if not r.get('report'):
             if r.get('print_error'):
